@@ -383,5 +383,5 @@ def arms(tier):
     return [Arm("streams", eval_case, cases, quick=500, thorough=20000)]
 
 
-REQUIRED_CLASSES = ["stream>=3-blocks-and-docs>=2", "malformed-after-good-documents", "doc:explicit-end", "doc:long-quoted", "short-reads",
+REQUIRED_CLASSES = ["break:CR", "break:CRLF", "break:NEL", "break:LS", "break:PS", "stream>=3-blocks-and-docs>=2", "malformed-after-good-documents", "doc:explicit-end", "doc:long-quoted", "short-reads",
                     "bytes-stream", "bytes-stream:utf-16", "text-stream", "malformed:scanner-at-start", "bare-document-after-explicit-end"]
